@@ -39,6 +39,14 @@ CHECKS = {
   text="Coq model of Position::san / san_without_check / parse_san with SAN_REGEX as an explicit greedy backtracking matcher. Every legal move of generated positions (3-5 like pieces reaching one square on the same file / rank / both, castling with check and mate, promotions with capture and check, the 218-move position) is printed and parsed back by the engine and by the model: texts must be equal and the engine's own parse-back must return the move; foreign SAN from scid.eco (and mutated variants) must resolve identically.",
   note="Partial: the round-trip theorem parse_san p (san p m) = Some m for all valid positions is not proved yet (uniqueness of the regex decomposition and of the disambiguation); std::regex is modelled, tied by the correspondence. No axioms.",
   tech="Coq model of printer, parser and regex; differential correspondence on every legal move + foreign SAN"),
+ "C18": dict(
+  text="Theorem C18_table (kernel computation over 12x64+4+8+1 entries): the Polyglot constants of the current source tree (re-extracted on every run) are exactly the published Random64 table re-ordered to the engine's piece numbering; the nine published test vectors are proved on the SPEC spec_hash (published layout). Tie: PolyglotBook::hash on generated positions (all castling-right combinations x en-passant situations: capturer left / right / both / none / pinned / edge files) must equal the extracted spec and the algorithmic model of the hash.",
+  note="Golden/Random64.v could not be taken from an independent source in the sealed sandbox: it is the pinned commit's table re-flattened to the published order, cross-checked by the nine published vectors and well-known entries (0, 780); any CHANGE of a constant is caught, a pre-existing wrong constant not touched by the vectors would not be. The general theorem engine_hash = spec_hash under the representation invariant is not proved yet (correspondence only). No axioms.",
+  tech="Coq proof by kernel computation (table identity, published vectors) + translator-regenerated constants + differential correspondence"),
+ "C19": dict(
+  text="Theorems for EVERY byte string / weight vector / draw: the reader model yields exactly length/16 records and record i is the decoding of bytes 16i..16i+15 (none dropped, duplicated or invented; empty and truncated files included); the random policy returns the entry whose cumulative-weight interval contains draw mod total, hence each entry for exactly weight-many residues and never an entry of weight zero; the best policy returns a recorded entry of maximal weight. Tie: PolyglotBook built from generated files (truncation at every offset, duplicate keys, zero weights) compared with the model map; every sampled move compared exactly with the model for the same draw (std::mt19937 replayed by the harness); decode_move on raw castling encodings.",
+  note="std::ifstream::read is modelled (short read fails, inserts nothing), tied by truncations at every offset; mt19937 and uniform_int_distribution are replayed, not modelled; the deviation from exact proportionality caused by 2^64 mod total is stated, not bounded by a theorem. No axioms.",
+  tech="Coq proof by list induction (reader, sampler, argmax) + differential correspondence with replayed PRNG"),
 }
 
 NOT_YET = "check not built yet in this round (planned, see DESIGN.md section 10); not a limit of the technique"
